@@ -125,7 +125,41 @@ def states(tier, seed):
 
 
 def _states_deep(seed):
-    return []
+    """all six kinds, every threshold variant at every (flavour, Q2) incl. more Q2 with exact thresholds, Qm variants everywhere, CC on every grid of the alphabet."""
+    out = []
+    q2s = [3.0, 9.0, 27.0, 81.0, 243.0, 900.0, 8100.0]
+    exact = dict(EXACT)
+    exact.update({("charm", 27.0): 0.75, ("charm", 81.0): 0.9, ("bottom", 243.0): 0.75, ("bottom", 9.0): 0.1})
+    for hq, q2 in itertools.product(MASSES, q2s):
+        m = MASSES[hq]
+        xt = _xthr(m, q2)
+        variants = [("thr-", xt * (1 - 1e-9)), ("thr+", xt * (1 + 1e-9)), ("below", xt / 2), ("above", (1 + xt) / 2), ("thr-12", xt * (1 - 1e-12)), ("thr+12", xt * (1 + 1e-12))]
+        if (hq, q2) in exact:
+            xe = exact[(hq, q2)]
+            from fractions import Fraction
+
+            if Fraction(q2) * (1 - Fraction(xe)) / Fraction(xe) == 4 * Fraction(m) * Fraction(m):
+                variants += [("exact", xe), ("ulp-", math.nextafter(xe, 0.0)), ("ulp+", math.nextafter(xe, 1.0))]
+        for (lab, x), kind, proc in itertools.product(variants, ["F2", "FL", "g1", "gL", "g4", "F3"], ["EM", "NC"]):
+            if x < 1e-3 or x >= 1 or (proc == "EM" and kind in ("F3", "gL", "g4")):
+                continue
+            for qm in (None, "lo", "hi", "del"):
+                st = {"t": "nc", "hq": hq, "Q2": q2, "variant": lab, "x": x, "kind": kind, "process": proc}
+                if qm:
+                    if kind not in ("F2", "FL") or proc != "NC":
+                        continue
+                    st["qm"] = qm
+                out.append(st)
+    for g, hq, q2 in itertools.product(["G6", "L7", "D5", "G9", "G13", "G8", "D1", "U7", "UL6", "M4"], MASSES, [3.0, 27.0, 243.0, 900.0, 8100.0]):
+        m = MASSES[hq]
+        lam = 1.0 / (1.0 + m * m / q2)
+        for lab, xi in (("xi=1-", 1 - 1e-9), ("xi=1", 1.0), ("xi=1+", 1 + 1e-9), ("xi=0.5", 0.5), ("xi=0.9", 0.9), ("xi=0.3", 0.3), ("xi=1-1e-11", 1 - 1e-11)):
+            x = xi * lam
+            if x < cards.GRIDS[g][0][0] * 1.01 or x > 1:
+                continue
+            for kind, proj in itertools.product(["F2", "FL", "F3"], ["neutrino", "antineutrino", "electron", "positron"]):
+                out.append({"t": "cc", "hq": hq, "Q2": q2, "variant": lab, "x": x, "kind": kind, "projectile": proj, "grid": g})
+    return out
 
 
 def execute(st):
@@ -190,6 +224,9 @@ def _nc(st):
         out = r.get_result()
     except Exception as e:
         info = yrun.classify_exception(e)
+        if isinstance(e, (ValueError, NotImplementedError)) and yrun.raised_explicitly(e):
+            # explicit rejection (LeProHQ: the high-virtuality limit of x2g1 at O(a_s^2) is not known): nothing to observe at operator level
+            return {"violations": viol, "nontrivial": False, "outcome": "rejected:" + info["exc"], "transitions": 1 + nker, "info": {"n_rejected": 1}}
         return {"violations": viol + [_v(st, "run-failed", f"get_result failed: {info['exc']} at {info['site']}: {info['excmsg']}")], "nontrivial": True, "outcome": "failed", "transitions": 1}
     T = yrun.tensors(out[names[0]][0])
     light_rows = [yrun.PIDX[p] for p in yrun.PIDS if p == 21 or (p != 22 and abs(p) <= 3)]
